@@ -480,6 +480,10 @@ func ghostCallName(call *ssa.CallCommon) string {
 		if fa, ok := f.X.(*ssa.FieldAddr); ok && f.Op == token.MUL {
 			return fieldName(deref(fa.X.Type()), fa.Field)
 		}
+		// a function literal kept in a local variable (readLine := func() ...): the variable's name
+		if al, ok := f.X.(*ssa.Alloc); ok && f.Op == token.MUL && al.Comment != "" {
+			return al.Comment
+		}
 	}
 	return ""
 }
